@@ -87,6 +87,14 @@ func specC05(tier string) *SeqSpec {
 	}
 	S = append(S, c("SADD", "w1", "1"), c("SREM", "w1", "1"), c("SMOVE", "w1", "k1", "1"), c("SMOVE", "k1", "w1", "1"), c("SMOVE", "k1", "w1", "4"), c("SMOVE", "nokey", "w1", "1"), c("SMOVE", "nokey", "k1", "1"), c("SMOVE", "k1", "newkey", "1"), c("SMOVE", "k1", "k2", "4"))
 	s.Sweep = S
+	// read; change; [change;] reads (see staleSweep) from every 16th family of subsets
+	{
+		reads := []Op{c("SISMEMBER", "k1", "1"), c("SISMEMBER", "k1", "2"), c("SMISMEMBER", "k1", "1", "3"), c("SCARD", "k1"), c("SMEMBERS", "k1"), c("SINTER", "k1", "k2"), c("SCARD", "k2")}
+		changes := []Op{c("SADD", "k1", "1"), c("SADD", "k1", "2", "3"), c("SREM", "k1", "1"), c("SREM", "k1", "2", "3"), c("SADD", "k2", "1"), c("SREM", "k2", "2"), c("SMOVE", "k1", "k2", "1"), c("SMOVE", "k2", "k1", "2"), c("SPOP", "k1", "5"), c("DEL", "k1"),
+			c("SINTERSTORE", "k1", "k1", "k2"), c("SUNIONSTORE", "k1", "k2", "k3"), c("SDIFFSTORE", "k1", "k1", "k3"), c("SUNIONSTORE", "k2", "k1"), c("RENAME", "k2", "k1"), c("COPY", "k3", "k1", "REPLACE")}
+		s.InitSweep = staleSweep(reads, changes)
+		s.InitSweepEvery = 16
+	}
 	s.Depth = 1
 	if tier == "thorough" {
 		s.Depth = 2
@@ -175,6 +183,17 @@ func specC04(tier string) *SeqSpec {
 		c("HSET", "w1", "f", "x"), c("HSETNX", "w1", "f", "x"), c("HMSET", "w1", "f", "x"), c("HDEL", "w1", "f"), c("HINCRBY", "w1", "f", "1"), c("HINCRBYFLOAT", "w1", "f", "1"),
 		c("HSET", "h1", "f"), c("HSET", "h1", "f", "x", "g"), c("HMSET", "h1", "f", "x", "g"), c("HSETNX", "nokey", "f", "x"), c("HSETNX", "h1", "q", "z"))
 	s.Sweep = S
+	// read; change; [change;] reads (see staleSweep)
+	{
+		reads := []Op{c("HGET", "h1", "f"), c("HGET", "h1", "g"), c("HGET", "h1", "q"), c("HLEN", "h1"), c("HEXISTS", "h1", "f"), c("HSTRLEN", "h1", "g"), c("HMGET", "h1", "n", "f"), c("HGETALL", "h1"), c("HKEYS", "h1"), c("HVALS", "h1"), c("HLEN", "h2")}
+		var changes []Op
+		for i, a := range A {
+			if tier == "thorough" || a.Args[0] != "HSET" || i%3 == 0 {
+				changes = append(changes, a)
+			}
+		}
+		s.InitSweep = staleSweep(reads, changes)
+	}
 	s.Depth = 2
 	if tier == "thorough" {
 		s.Depth = 3
@@ -414,6 +433,17 @@ func specC02(tier string) *SeqSpec {
 		c("LCS", "k1", "k2"), c("LCS", "k1", "k2", "LEN"), c("LCS", "k1", "k2", "IDX"), c("LCS", "k1", "k2", "IDX", "MINMATCHLEN", "2"), c("LCS", "k1", "k2", "IDX", "WITHMATCHLEN"), c("LCS", "k1", "k1"), c("LCS", "k1", "nokey"), c("LCS", "k1", "nokey", "LEN"), c("LCS", "k1", "l1"), c("LCS", "k1", "k2", "IDX", "LEN"), c("LCS", "k1", "k1", "IDX", "MINMATCHLEN", "1", "WITHMATCHLEN"),
 	)
 	s.Sweep = S
+	// read; change; [change;] reads (see staleSweep)
+	{
+		reads := []Op{c("GET", "k1"), c("STRLEN", "k1"), c("GETRANGE", "k1", "0", "-1"), c("GETRANGE", "k1", "1", "2"), c("MGET", "k1", "k2"), c("PTTL", "k1"), c("EXISTS", "k1"), c("LCS", "k1", "k2", "LEN")}
+		var changes []Op
+		for i, a := range A {
+			if tier == "thorough" || i%2 == 0 || a.Args[0] == "APPEND" || a.Args[0] == "SETRANGE" || a.Args[0] == "DEL" {
+				changes = append(changes, a)
+			}
+		}
+		s.InitSweep = staleSweep(reads, changes)
+	}
 	s.Depth = 2
 	if tier == "thorough" {
 		s.Depth = 3
